@@ -295,9 +295,11 @@ fn looks_like_ipv4_prefix(name: &str) -> bool {
 
 fn host_name() -> BoxedStrategy<String> {
     let label = prop_oneof![
-        5 => "[a-zA-Z0-9]([a-zA-Z0-9-]{0,8}[a-zA-Z0-9])?",
-        2 => "[0-9]{1,3}",
-        1 => "[a-z]{1,3}",
+        10 => "[a-zA-Z0-9]([a-zA-Z0-9-]{0,8}[a-zA-Z0-9])?",
+        4 => "[0-9]{1,3}",
+        2 => "[a-z]{1,3}",
+        // labels around the DNS limit of 63 octets (RFC 3261 does not bound a label at all)
+        1 => "[a-zA-Z][a-zA-Z0-9-]{59,63}[a-zA-Z0-9]",
     ];
     // names made of numbers only: dotted quads that are NOT addresses (leading zeros, a part above 255, too
     // many digits), which the address alternative must leave to the host-name alternative
